@@ -120,6 +120,9 @@ TABLE = {
     "tan": ("non", "poles at pi/2 + k pi"),
 }
 
+# names of CONSTS that the function being read imports by name (`use std::f64::consts::PI;` then a bare `PI`): set by c06.extract from the `use` items in scope
+BARE_CONSTS = set()
+
 # named constants that may appear in pieces and closures
 CONSTS = {
     "PI": math.pi,
@@ -509,7 +512,7 @@ class Interp:
             segs = n["segs"]
             if len(segs) == 1 and segs[0] in env.vars:
                 return env.vars[segs[0]]
-            if segs and segs[-1] in CONSTS and len(segs) >= 2:
+            if segs and segs[-1] in CONSTS and (len(segs) >= 2 or segs[0] in BARE_CONSTS):
                 return self.cst(pt(CONSTS[segs[-1]]))
             return self.cst(None)  # a constant / captured value: does not move with the coordinates
         if k == "unary":
